@@ -2738,6 +2738,9 @@ impl Compiler {
                 }
                 _ => {
                     let max_batch_size = self.frame().available_registers_count() as usize;
+                    if max_batch_size == 0 {
+                        return self.error(FrameError::StackOverflow);
+                    }
                     for elements_batch in elements.chunks(max_batch_size) {
                         let stack_count = self.stack_count();
                         let start_register = self.frame().next_temporary_register();
